@@ -28,9 +28,15 @@ var repoDir = func() string {
 	return "/repo"
 }()
 
-const (
-	verifDir = "/verif"
-	goRoot   = "/opt/veriftools/go1.26.8"
+// verifDir is /verif, or the snapshot of it a background run (vp run) works in.
+var verifDir = func() string {
+	if d := os.Getenv("VERIF_DIR"); d != "" {
+		return d
+	}
+	return "/verif"
+}()
+
+const (	goRoot   = "/opt/veriftools/go1.26.8"
 	hookPath = "github.com/tmaxmax/go-sse/verifhook"
 )
 
